@@ -3020,7 +3020,9 @@ int32_t writeRecordHeader(ssl_t *ssl, uint8_t type, uint8_t hsType,
             if (psGetPrngLocked(*c, ssl->cipher->blockSize,
                     ssl->userPtr) < 0)
             {
-                psTraceInfo("WARNING: psGetPrngLocked failed\n");
+                /* No fresh IV, no record */
+                psTraceErrr("psGetPrngLocked failed\n");
+                return MATRIXSSL_ERROR;
             }
             *c += ssl->cipher->blockSize;
         }
@@ -3031,7 +3033,9 @@ int32_t writeRecordHeader(ssl_t *ssl, uint8_t type, uint8_t hsType,
     {
         if (psGetPrngLocked(*c, ssl->enBlockSize, ssl->userPtr) < 0)
         {
-            psTraceInfo("WARNING: psGetPrngLocked failed\n");
+            /* No fresh IV, no record */
+            psTraceErrr("psGetPrngLocked failed\n");
+            return MATRIXSSL_ERROR;
         }
         *c += ssl->enBlockSize;
     }
